@@ -257,6 +257,8 @@ def run_real(case):
     pexpect_expect.time = clock
     try:
         p = Scripted([list(e) for e in case['script']], mode, clock)
+        if case.get('maxread'):
+            p.maxread = case['maxread']          # (the scripted transport hands over its chunks whole: some then are exactly maxread long, some longer)
         recs = []
         recs_shared = {}
         for op in case['ops']:
